@@ -570,9 +570,16 @@ class StreamReader:
         while chunk_splits and chunk_splits[0] < self._cursor:
             chunk_splits.popleft()
 
-        if self._size < self._low_water and (
-            self._http_chunk_splits is None
-            or len(self._http_chunk_splits) < self._low_water_chunks
+        # (A reader whose message is complete has lifted its own pause in
+        # feed_eof(): if reading is paused now it is on behalf of a later
+        # message on the connection, whose reader is the one to resume it.)
+        if (
+            not self._eof
+            and self._size < self._low_water
+            and (
+                self._http_chunk_splits is None
+                or len(self._http_chunk_splits) < self._low_water_chunks
+            )
         ):
             self._protocol.resume_reading()
         return data
